@@ -1111,12 +1111,37 @@ fn at_path<'a>(v: &'a mut ciborium::Value, path: &[usize]) -> &'a mut ciborium::
 /// One field of the copy is changed (a buggy or hostile party, or corruption that survives parsing).
 /// Returns a description, or None when the drawn field cannot be changed meaningfully.
 fn mutate_field(v: &mut ciborium::Value, ch: &mut Choices) -> Option<String> {
-    let mut fields = vec![];
-    collect_fields(v, &mut vec![], &mut fields, "");
-    if fields.is_empty() {
-        return None;
-    }
-    let (path, name) = fields[ch.idx("mut.field", fields.len())].clone();
+    // half of the time a field drawn uniformly from all fields, otherwise by descending the tree with a uniform
+    // choice at every level (which favours the few header fields over the many per-action and proof fields)
+    let (path, name) = if ch.chance("mut.uniform", 1, 2) {
+        let mut fields = vec![];
+        collect_fields(v, &mut vec![], &mut fields, "");
+        if fields.is_empty() {
+            return None;
+        }
+        fields[ch.idx("mut.field", fields.len())].clone()
+    } else {
+        let mut path = vec![];
+        let mut name = String::new();
+        let mut cur: &ciborium::Value = v;
+        loop {
+            match cur {
+                ciborium::Value::Map(m) if !m.is_empty() => {
+                    let i = ch.idx("mut.child", m.len());
+                    name = m[i].0.as_text().map(|s| s.to_string()).unwrap_or_else(|| format!("{name}[key]"));
+                    path.push(i);
+                    cur = &m[i].1;
+                }
+                ciborium::Value::Array(a) if a.iter().any(|x| matches!(x, ciborium::Value::Map(_) | ciborium::Value::Array(_))) => {
+                    let i = ch.idx("mut.child", a.len());
+                    path.push(i);
+                    cur = &a[i];
+                }
+                _ => break,
+            }
+        }
+        (path, name)
+    };
     let drop_it = ch.chance("mut.drop", 1, 4);
     let slot = at_path(v, &path);
     use ciborium::Value as V;
